@@ -456,6 +456,12 @@ def fold_url_regex(fi):
     """evaluate _create_url_regex: its local helpers are pure string builders"""
     env = {}
     funcs = {}
+    mod_assigns = {}
+    for st in fi.module.tree.body:          # helpers and constants may live at module level as well
+        if isinstance(st, ast.FunctionDef):
+            funcs[st.name] = st
+        elif isinstance(st, ast.Assign) and len(st.targets) == 1 and isinstance(st.targets[0], ast.Name):
+            mod_assigns[st.targets[0].id] = st.value
     for st in fi.node.body:
         if isinstance(st, ast.FunctionDef):
             funcs[st.name] = st
@@ -468,6 +474,8 @@ def fold_url_regex(fi):
                 return loc[e.id]
             if e.id in env:
                 return env[e.id]
+            if e.id in mod_assigns:
+                return ev(mod_assigns[e.id], {})
             raise AnalysisError(f"C16: cannot fold name {e.id} in URL regex")
         if isinstance(e, ast.BinOp) and isinstance(e.op, ast.Add):
             return ev(e.left, loc) + ev(e.right, loc)
